@@ -161,8 +161,9 @@ CLAIMED['C10'] = dict(
          'order their senders obtained the port (device: the complete ones among the bytes read - never mixed byte-wise), each once; every sender\'s messages keep their order. '
          'One step invariant, lifted over the schedule by induction. The tie runs REAL threads on the real ports.py under a deterministic scheduler (yield points = the same '
          'accesses) and replays every executed schedule on the model; small programs get every schedule with at most 2 (thorough: 3) preemptions.',
-    note='Coq kernel; no axioms; atomicity of deque/RLock methods under the GIL and "nothing shared is touched between yield points" are assumptions; MultiPort (fan-in/fan-out) and the '
-         'copy-on-send clause are checked on the real threads under explored schedules against the statement only (not modelled); the behaviour without the lock is a refuted theorem.',
+    note='Coq kernel; no axioms; atomicity of deque/RLock methods under the GIL and "nothing shared is touched between yield points" are assumptions; MultiPort fan-in has its own '
+         'model (ConcMulti.v) and theorems (no raise, exactly once) and the same schedule replay; MultiPort fan-out, mixed use and the copy-on-send clause are checked on the real threads '
+         'under explored schedules against the statement only; the behaviour without the lock is a refuted theorem.',
     technique='Coq proof (step invariant preserved by every thread step, induction over the schedule) + model/implementation correspondence on systematically explored schedules', design='5/C10')
 NOT_YET = {}
 ALL = ['C%02d' % i for i in range(1, 21)]
